@@ -29,6 +29,10 @@
 
 
 #define MRB_BUFFER_SIZE (64 * 1024 * 1024)
+#if defined(JLS_VERIF) && defined(JLS_VERIF_MRB_BUFFER_SIZE)
+#undef MRB_BUFFER_SIZE
+#define MRB_BUFFER_SIZE (JLS_VERIF_MRB_BUFFER_SIZE)   /* verification hook: small queue */
+#endif
 
 
 struct jls_twr_s {
